@@ -304,7 +304,7 @@ func parseVUI(reader *bits.EBSPReader, parseVUIBeyondAspectRatio bool) *VUIParam
 		if aspectRatioIDC == ExtendedSAR {
 			vui.SampleAspectRatioWidth = reader.Read(16)
 			vui.SampleAspectRatioHeight = reader.Read(16)
-		} else {
+		} else if aspectRatioIDC != 0 { // 0 is "Unspecified" (Table E-1): no sample aspect ratio
 			vui.SampleAspectRatioWidth, vui.SampleAspectRatioHeight, err = GetSARfromIDC(aspectRatioIDC)
 			if err != nil {
 				reader.SetError(fmt.Errorf("GetSARFromIDC: %w", err))
